@@ -107,7 +107,7 @@ def render_ws(tokens, rng):
     """tokens -> (text, token start offsets in bytes, end offset after trailing ws skip)"""
     parts, offs = [], []
     cur = 0
-    WS = [" ", "  ", "\n", " \n ", "\t", " ", "\r\n", "　"]
+    WS = [" ", "  ", "\n", " \n ", "\t", " ", "\r\n", "　", "\n　", "\n\u00a0 ", "\u000b", " \n\u2003"]
     for i, t in enumerate(tokens):
         sep = "" if (i == 0 and rng.random() < 0.6) else rng.choice(WS)
         parts.append(sep)
